@@ -79,9 +79,13 @@ func verifExpand(tmpl string, sep byte) []byte {
 			raw := []byte{verifOwnerBytes[nd.Choice(nd.Param("own"))], 'o', '.', 'e', 'x'}
 			verifRawOwner = raw
 			out = append(out, quote.Bquote(raw)...)
-		case 'w': // optional wildcard prefix
-			if nd.Bool() {
+		case 'w': // optional wildcard prefix, written plainly or with its bytes as octal escapes
+			switch nd.Choice(3) {
+			case 1:
 				out = append(out, '*', '.')
+			case 2:
+				out = append(out, verifOctal('*')...)
+				out = append(out, '.')
 			}
 		case 'x': // raw text bytes, arbitrary (solver-chosen), quoted by the real Bquote
 			raw := make([]byte, nd.Param("xs"))
